@@ -308,6 +308,44 @@ fn dedup(forms: Vec<(&'static str, Value)>) -> Value {
     Value::Object(out)
 }
 
+/// Event-level trace of one try_parse_partial / try_check_partial on the first applicable form (hooks, direction B).
+fn events<'i, R: RuleType, T, A>(job: &Job, mk: impl Fn() -> A) -> Value
+where
+    T: ParsableTypedNode<'i, R> + Pairs<'i, R> + Debug + Hash,
+    A: pest_typed::AsInput<'i>,
+{
+    let conv = |ev: Vec<pest_typed::verif::Event>| -> Vec<Value> {
+        ev.into_iter()
+            .map(|(tag, name, a, b, stk)| {
+                let st: Vec<Value> = stk.iter().map(|(s, e)| json!([*s as i64 - job.lo as i64, *e as i64 - job.lo as i64])).collect();
+                match tag {
+                    "r+" => json!(["r+", name, a as i64 - job.lo as i64]),
+                    "r-" => json!(["r-", name, a as i64 - job.lo as i64, b == 1]),
+                    "t+" => json!(["t+", st]),
+                    "t-" => json!(["t-", a == 1, st]),
+                    "p+" => json!(["p+", a == 0, st]),
+                    "p-" => json!(["p-", a == 1, st]),
+                    _ => json!([tag, st]),
+                }
+            })
+            .collect()
+    };
+    let parse = guard(|| {
+        pest_typed::verif::start();
+        let r = T::try_parse_partial(mk());
+        let ev = pest_typed::verif::take();
+        json!({"ok": r.is_ok(), "ev": conv(ev)})
+    });
+    let check = guard(|| {
+        pest_typed::verif::start();
+        let r = T::try_check_partial(mk());
+        let ev = pest_typed::verif::take();
+        json!({"ok": r.is_ok(), "ev": conv(ev)})
+    });
+    let _ = pest_typed::verif::take();
+    json!({"parse": parse, "check": check})
+}
+
 /// Observe the typed parser on a job through every entry point and applicable input form.
 pub fn observe_typed<'i, R: RuleType, T>(job: &'i Job) -> Value
 where
@@ -330,7 +368,19 @@ where
             None => forms.push(("span", json!({"invalid": true}))),
         }
     }
-    dedup(forms)
+    let mut out = dedup(forms);
+    if job.has('E') {
+        let ev = if !job.has_pre && !job.has_post {
+            events::<R, T, &'i str>(job, || full)
+        } else {
+            match Span::new(full, job.lo, job.hi) {
+                Some(sp) => events::<R, T, Span<'i>>(job, || sp),
+                None => json!({"invalid": true}),
+            }
+        };
+        out["events"] = ev;
+    }
+    out
 }
 
 fn flatten_pest<R: pest::RuleType>(pairs: pest::iterators::Pairs<'_, R>, d: usize, out: &mut Vec<Value>) {
